@@ -146,12 +146,13 @@ OutRefOK(o) ==
   IN /\ (o.e.abs \/ o.e.up <= Len(o.ctx))
      /\ NodeAt(tgt) # {}
      /\ \A i \in C : (nodes[i].gen \in {"", "note"} /\ nodes[i].refs # <<>>) => Last(tgt) \in ToSet(nodes[i].refs)
+\* (forms that are not the generator's own may contain XPath typed by the author: the output-side clauses are for Source # "suite")
 C03Env == /\ Check("no_residual_reference", Ev.residual = 0)
-          /\ Check("emitted_paths_reach_referenced_nodes", \A k \in 1..Len(Ev.outrefs) : OutRefOK(Ev.outrefs[k]))
+          /\ Check("emitted_paths_reach_referenced_nodes", Source # "suite" => \A k \in 1..Len(Ev.outrefs) : OutRefOK(Ev.outrefs[k]))
           \* the same rule as for the hooked substitutions, read from the output alone: a path to a node whose innermost repeat
           \* also encloses the node the expression belongs to is relative (outside indexed-repeat() arguments)
           /\ Check("emitted_paths_relative_inside_shared_repeat",
-                   \A k \in 1..Len(Ev.outrefs) :
+                   Source # "suite" => \A k \in 1..Len(Ev.outrefs) :
                       LET o == Ev.outrefs[k] IN
                       (o.e.inst = "" /\ ~o.in_ir /\ (o.e.abs \/ o.e.up <= Len(o.ctx)) /\ MustBeRelative(nodes, o.ctx, Resolve(o.ctx, o.e))) => ~o.e.abs)
           /\ Check("every_source_reference_substituted",
